@@ -522,7 +522,7 @@ def run_property(prop, jobs, tier, level="proof", assumptions=(), trusted_base=(
         native_lib()
         todo = []
         for n, (jn, (j, ents)) in enumerate(sorted(byjob.items())):
-            first = next((e for e in ents if e.get("inputs")), None)
+            first = next((e for e in ents if "inputs" in e), None)
             if first is not None and n < 12:
                 todo.append((jn, j, first["inputs"]))
         natives = {}
